@@ -7,6 +7,8 @@ SETUP = [{"op": "create", "m": "A"}, {"op": "create", "m": "B"},
          {"op": "addrule", "m": "B", "r": "ra"}, {"op": "addrule", "m": "B", "r": "rb"},
          {"op": "addrule", "m": "A", "r": "xa"}, {"op": "exports", "m": "B", "e": "all"}]
 CFG_RE = dict(CFG, setup=SETUP)
+CFG_CYC = {"Mods": ["MAIN", "A", "B"], "Rules": ["ra"], "setup": SETUP}
+CFG_CYC4 = {"Mods": ["MAIN", "A", "B", "C"], "Rules": ["ra"], "setup": SETUP + [{"op": "create", "m": "C"}]}
 
 
 def match(p, r):
@@ -96,16 +98,19 @@ def run(ctx):
         c.tlc_l1(ctx, "Modules.tla", "MC_Modules_%s.cfg" % w, expect_violation=w, workers=2)
     if not q:
         c.tlc_l1(ctx, "Modules.tla", "MC_Modules_dev.cfg", expect_violation="NoDanglingDecl", workers=2)
-    plan = [("Gen_Modules.cfg", CFG, 400, 7, 2), ("Gen_Modules_re3.cfg", CFG_RE, 400, 7, 2)] if q else \
-           [("Gen_Modules.cfg", CFG, 5000, 7, 3), ("Gen_Modules_re.cfg", CFG_RE, 5000, 7, 3)]
-    for cfg, cfgobj, walks, wl, ah in plan:
-        edges = ctx.path(cfg + ".edges")
-        g = c.tlc_gen(ctx, "Modules.tla", cfg, edges, cfgobj=cfgobj, timeout=1500)
-        r = c.replay(ctx, "modules", edges, walks=walks, walklen=wl, allhist=ah)
-        c.log("  %s: %d edges / %d states; %d behaviours, %d steps, %d failures" % (
-            cfg, g["edges"], g["states"], r["behaviours"], r["steps"], r["failures_n"]))
-    ctx.cov["rule"] = ("behaviours = shortest path + one edge for every (state,label) of the TLC-dumped Modules graph, all op "
-                       "sequences to the all-histories depth, seeded walks to 7 ops; after every op the Ok/Err result, "
+    M = "Modules.tla"
+    if q:
+        c.graph_leg(ctx, M, "modules", "Gen_Modules.cfg", CFG, 300, 7, 2, "Sim_Modules.cfg", 150, 8)
+        c.graph_leg(ctx, M, "modules", "Gen_Modules_re2.cfg", CFG_RE, 300, 7, 2, "Sim_Modules_re.cfg", 150, 8)
+        c.graph_leg(ctx, M, "modules", "Gen_Modules_cyc5.cfg", CFG_CYC, 500, 8, 3)
+    else:
+        c.graph_leg(ctx, M, "modules", "Gen_Modules_d4.cfg", CFG, 5000, 7, 3, "Sim_Modules.cfg", 3000, 8, timeout=3000)
+        c.graph_leg(ctx, M, "modules", "Gen_Modules_re.cfg", CFG_RE, 5000, 7, 3, "Sim_Modules_re.cfg", 3000, 8, timeout=3000)
+        c.graph_leg(ctx, M, "modules", "Gen_Modules_cyc.cfg", CFG_CYC, 5000, 8, 4)
+        c.graph_leg(ctx, M, "modules", "Gen_Modules_cyc4.cfg", CFG_CYC4, 5000, 8, 3, timeout=3000)
+    ctx.cov["rule"] = ("behaviours = shortest path + one edge for every (state,label) of the TLC-dumped Modules graphs (from the empty manager; "
+                       "from a populated manager with re-exports; the complete import/delete/recreate graph over one rule name), all op "
+                       "sequences to the all-histories depth, seeded walks, and TLC-simulated behaviours of 8 ops; after every op the Ok/Err result, "
                        "existence, owned rules, export setting, import declarations, import graph, is_rule_visible for every "
                        "(rule,module) and its agreement with get_visible_rules are compared with the spec")
     ctx.assumptions += ["visibility compared for the 3 rule names of the alphabet; rule-name patterns *, r*, *a, exact",
